@@ -148,13 +148,16 @@ fn default_side(spec: &RunSpec) -> DefaultSide {
     DefaultSide { digests, retag, ms: t0.elapsed().as_millis() }
 }
 
-/// Expand a lock-acquisition order into a fine-grained schedule of the model (Acquire, Body,
-/// Release, Post events), interleaving the Post events of other threads at random.
-fn fine_schedule(tickets: &[usize], n: usize, r: &mut Rng, finish: bool) -> Vec<usize> {
+/// Expand a lock-acquisition order into a schedule of the model, interleaving the Post events of
+/// other threads at random.  Returns (atomic-body schedule: Acquire, Body, Release, Post events;
+/// phase schedule: Acquire, Tick, Probe, Commit, Release, Post events) of the same run.
+fn fine_schedule(tickets: &[usize], n: usize, r: &mut Rng, finish: bool) -> (Vec<usize>, Vec<usize>) {
+    // pc: 0 acquire, 1 tick, 2 probe, 3 commit, 4 release, 5 post
     let mut pc = vec![0u8; n];
     let mut holder: Option<usize> = None;
     let mut next = 0;
-    let mut out = vec![];
+    let mut coarse = vec![];
+    let mut phases = vec![];
     loop {
         if next == tickets.len() && holder.is_none() && !finish {
             break;
@@ -164,7 +167,7 @@ fn fine_schedule(tickets: &[usize], n: usize, r: &mut Rng, finish: bool) -> Vec<
             enabled.push(h);
         }
         for i in 0..n {
-            if pc[i] == 3 {
+            if pc[i] == 5 {
                 enabled.push(i);
             }
         }
@@ -175,22 +178,26 @@ fn fine_schedule(tickets: &[usize], n: usize, r: &mut Rng, finish: bool) -> Vec<
             break;
         }
         let i = r.pick(&enabled);
-        out.push(i);
+        phases.push(i);
+        // Tick and Probe are stuttering steps of the atomic model; Commit is its Body event
+        if pc[i] != 1 && pc[i] != 2 {
+            coarse.push(i);
+        }
         match pc[i] {
             0 => {
                 pc[i] = 1;
                 holder = Some(i);
                 next += 1;
             }
-            1 => pc[i] = 2,
-            2 => {
-                pc[i] = 3;
+            4 => {
+                pc[i] = 5;
                 holder = None;
             }
-            _ => pc[i] = 0,
+            5 => pc[i] = 0,
+            k => pc[i] = k + 1,
         }
     }
-    out
+    (coarse, phases)
 }
 
 struct PureModel {
@@ -389,7 +396,10 @@ fn main() {
     for i in 0..(n_big + n_small) {
         let mode = if i % 5 == 1 || i % 5 == 3 { Mode::Pure } else { Mode::Rich };
         let q = if i < n_big { q_big } else { q_small };
-        runs.push(json!({"seed": r.next() >> 12, "mode": mode.name(), "threads": threads, "queries": q, "prefix": prefix, "noise": true, "size": "big"}));
+        // same number of queries per run; every fourth run oversubscribes (2N threads x M/2), every
+        // seventh uses few threads (N/4 x 4M)
+        let (t, q) = if i % 4 == 2 { (threads * 2, q / 2) } else if i % 7 == 5 { (threads / 4, q * 4) } else { (threads, q) };
+        runs.push(json!({"seed": r.next() >> 12, "mode": mode.name(), "threads": t, "queries": q, "prefix": prefix, "noise": true, "size": "big"}));
     }
     for _ in 0..n_tiny {
         let t = r.range(2, 4);
@@ -444,6 +454,8 @@ fn main() {
     let mut tot_compiled_seen = 0u64;
     let mut tot_usage = 0u64;
     let mut conc_ms = 0u64;
+    let mut tot_switches = 0u64;
+    let mut threads_hist: std::collections::BTreeMap<usize, u64> = Default::default();
     let mut located = false;
     for (i, res) in results.iter().enumerate() {
         let run = &runs[i.min(runs.len() - 1)];
@@ -457,6 +469,8 @@ fn main() {
         tot_compiled_seen += res["inrun_compiled_seen"].as_u64().unwrap_or(0);
         tot_usage += res["cache_usage_total"].as_u64().unwrap_or(0);
         conc_ms += res["conc_ms"].as_u64().unwrap_or(0);
+        tot_switches += res["ticket_switches"].as_u64().unwrap_or(0);
+        *threads_hist.entry(spec.threads).or_insert(0u64) += 1;
         for (what, rp) in o.failures {
             let mut what = what;
             if what.starts_with("thread-safe and single-thread builds") && !located {
@@ -509,7 +523,7 @@ fn main() {
             impl_bits.push(cb);
         }
         for _variant in 0..(if tiny { 1 } else { 6 }) {
-        let sched = fine_schedule(&tickets, spec.threads, &mut r, tiny);
+        let (sched, phase_sched) = fine_schedule(&tickets, spec.threads, &mut r, tiny);
         let qss: Vec<Vec<String>> = (0..spec.threads)
             .map(|ti| (0..need[ti]).map(|qi| coq_query(&pm.q[&(ti, qi)], r.chance(3, 4))).collect())
             .collect();
@@ -527,13 +541,14 @@ fn main() {
         let consulted: usize = pm.q.values().map(|m| m.2.len()).sum();
         let nontrivial = tickets.iter().collect::<BTreeSet<_>>().len() >= 2 && consulted > 0 && impl_bits.iter().flatten().any(|b| *b);
         let desc = json!({"seed": spec.seed, "threads": spec.threads, "queries": spec.queries, "rules": w.rules, "tickets": tickets,
-            "schedule_events": sched.len(), "impl_answer_bits": impl_bits, "cache_dump": res["cache"], "kind": if tiny { "complete" } else { "prefix" }});
+            "schedule_events": sched.len(), "phase_schedule_events": phase_sched.len(), "impl_answer_bits": impl_bits, "cache_dump": res["cache"], "kind": if tiny { "complete" } else { "prefix" }});
         let expr = if tiny {
             let post: Vec<String> = (0..spec.threads).flat_map(|ti| (0..POST_QUERIES.min(spec.queries)).map(move |qi| (ti, qi))).map(|k| coq_query(&pm.q[&k], false)).collect();
             let dump2 = clist(&cache, |e| format!("({}, {})", cn(if e.0 < 0 { 0 } else { e.0 as usize + 1 }), cbool(e.1)));
             format!(
-                "replay_final {} {} {} {} {} {} {} && cache_okb {} {}",
-                pm.tbl, mt_s, qss_s, coq_sched(&sched), coq_bits(&impl_bits), clist(&post, |s| s.clone()), dump2, pm.tbl, dumped
+                "replay_final {} {} {} {} {} {} {} && cache_okb {} {} && freplay_complete {} {} {} {} {}",
+                pm.tbl, mt_s, qss_s, coq_sched(&sched), coq_bits(&impl_bits), clist(&post, |s| s.clone()), dump2, pm.tbl, dumped,
+                pm.tbl, mt_s, qss_s, coq_sched(&phase_sched), coq_bits(&impl_bits)
             )
         } else {
             format!("replay_ok {} {} {} {} {} && cache_okb {} {}", pm.tbl, mt_s, qss_s, coq_sched(&sched), coq_bits(&impl_bits), pm.tbl, dumped)
@@ -548,6 +563,8 @@ fn main() {
     sm.extra.insert("queries_per_configuration".into(), json!(tot_q));
     sm.extra.insert("runs".into(), json!(results.len()));
     sm.extra.insert("threads".into(), json!(threads));
+    sm.extra.insert("runs_by_thread_count".into(), json!(threads_hist.iter().map(|(k, v)| (k.to_string(), *v)).collect::<std::collections::BTreeMap<String, u64>>()));
+    sm.extra.insert("ticket_holder_switches".into(), json!(tot_switches));
     sm.extra.insert("lock_taking_noise_ops".into(), json!(tot_noise));
     sm.extra.insert("compiled_entries_checked_in_run".into(), json!(tot_compiled_seen));
     sm.extra.insert("regex_evaluations_concurrent".into(), json!(tot_usage));
